@@ -3,10 +3,11 @@ import Gms.Model.Outfile
 open Gms.Proto Gms.Outfile
 
 /-
-case:  (rt (opts <ft> <enc> <encOpt 0|1> <esc> <lt> <ls>) <ncols> (rows (<v> …) …))
+case:  (wr (opts <ft> <enc> <encOpt 0|1> <esc> <lt> <ls>) (rows (<v> …) …))   obs: f=<hex of the file>
+       (rt (opts …) <ncols> (rows (<v> …) …))                                 obs: t=<table after LOAD DATA>
          v = null | (t <hex>) | (n <hex>)
        (rd (opts …) <ncols> <file hex>)                      -- reader alone on arbitrary bytes
-obs:   f=<hex of the file> t=(<row> …)   row = (<hex>|null …)
+       table = (<row> …), row = (<hex>|null …)
 -/
 
 def parseOpts : Sexp → Option Opts
@@ -36,17 +37,20 @@ def showTable (t : List (List (Option Bytes))) : String :=
 
 def handle (p : List Sexp) : String :=
   match p with
+  | [.list [.atom "wr", os, rs]] =>
+    -- the writer alone: the Spec does not determine the file bytes
+    match parseOpts os, parseRows rs with
+    | some o, some rows => answer ("f=" ++ hex (writeFile o rows)) "?"
+    | _, _ => answer "bad-case"
   | [.list [.atom "rt", os, nc, rs]] =>
     match parseOpts os, nc.nat?, parseRows rs with
     | some o, some n, some rows =>
-      let file := writeFile o rows
-      let got := readFile o n file
+      let got := roundTrip o n rows
       let want := specRows rows
-      let implObs := "f=" ++ hex file ++ " t=" ++ showTable got
+      let implObs := "t=" ++ showTable got
       if !optsWF o then answer implObs "?"
       else if got == want then answer implObs
-      else
-        answer implObs ("f=" ++ hex file ++ " t=" ++ showTable want) ((region o rows).getD "no_region")
+      else answer implObs ("t=" ++ showTable want) ((region o rows).getD "no_region")
     | _, _, _ => answer "bad-case"
   | [.list [.atom "rd", os, nc, f]] =>
     match parseOpts os, nc.nat?, f.bytes? with
